@@ -493,7 +493,7 @@ def _set_vars(fnode):
         for n in own_nodes(fnode):
             if isinstance(n, ast.Assign) and len(n.targets) == 1 and isinstance(n.targets[0], ast.Name):
                 v = n.value
-                is_set = isinstance(v, (ast.Set, ast.SetComp)) or \
+                is_set = isinstance(v, (ast.Set, ast.SetComp)) or _is_set_expr(v, sets) or \
                     (isinstance(v, ast.Call) and attr_chain(v.func) in SET_MAKERS) or \
                     (isinstance(v, ast.Call) and isinstance(v.func, ast.Attribute) and v.func.attr in SET_METHODS
                      and _is_set_expr(v.func.value, sets)) or \
@@ -505,8 +505,15 @@ def _set_vars(fnode):
     return sets
 
 
+_SET_RETURNING = [set()]      # names of package functions all of whose returns are sets (filled by r7b)
+
+
 def _is_set_expr(e, sets):
     if isinstance(e, ast.Name) and e.id in sets:
+        return True
+    if isinstance(e, ast.IfExp):
+        return _is_set_expr(e.body, sets) and _is_set_expr(e.orelse, sets)
+    if isinstance(e, ast.Call) and (attr_chain(e.func) or "").split(".")[-1] in _SET_RETURNING[0]:
         return True
     if isinstance(e, (ast.Set, ast.SetComp)):
         return True
@@ -553,6 +560,16 @@ def r7b(repo, rep):
     rep.rule("R7b", "no hash-ordered iteration in the continuous-time simulators: no for/comprehension/pop/"
                     "list()/next(iter()) over a set unless inside sorted(); the transition lists that drive event "
                     "selection in Gillespie_simple_contagion are sorted() on the non-exceptional path")
+    # package functions that hand back a set (every return is a set expression): iterating their result is hash-ordered too
+    sr = set()
+    for g in repo.all_funcs():
+        rets = [n for n in own_nodes(g.node) if isinstance(n, ast.Return) and n.value is not None]
+        if rets:
+            loc = _set_vars(g.node)
+            if all(_is_set_expr(r.value, loc) for r in rets):
+                sr.add(g.name)
+    _SET_RETURNING[0] = sr
+    rep.count("R7b:package functions that return a set", len(sr))
     scope = continuous_scope(repo)
     rep.floor("R7b", "functions in the continuous-time scope", len(scope), 30)
     for f in scope:
